@@ -1747,7 +1747,7 @@ package go_clipper2
 //@   ensures [ring-closed-at-the-splice] outrec.pts != nil ==> (old(splitOp.next.next).prev == old(splitOp.prev).next || old(splitOp.next.next).prev == old(splitOp.prev))
 
 //@ func clipperBase.processHorzJoins
-//@   props C02 C17 C04 C01 C05 C08 C09 C10 C19
+//@   props C02 C17 C04 C01 C05 C08 C09 C10 C19 C03
 //@   nosafety
 //@   loop 0 step [split-rings-own-their-entry-points] (!c.usingPolyTree && or2.pts != nil && or2.owner == or1 && or1 != or2 && old(or1.pts != nil && or1.pts.outrec == or1 && j.op1.next != j.op1 && j.op1 != nil) && old(len(c.outrecList)) < len(c.outrecList)) ==> (or1.pts.outrec == or1 && or2.pts.outrec == or2)
 //@   loop 0 step [tree-split-ring-gets-an-owner] (c.usingPolyTree && old(len(c.outrecList)) < len(c.outrecList)) ==> (or2 != or1 && (or2.owner == or1 || or2.owner == or1.owner))
